@@ -94,7 +94,7 @@ def _real_values():
 
 
 ASCII_KINDS = ('NumericString', 'PrintableString', 'TeletexString', 'VideotexString', 'IA5String',
-               'GraphicString', 'VisibleString', 'GeneralString', 'ObjectDescriptor')
+               'GraphicString', 'VisibleString', 'GeneralString', 'ObjectDescriptor', 'T61String', 'ISO646String')
 
 
 def _str_values(kind):
